@@ -280,7 +280,8 @@ pub fn c11(h: &Hist, s: u8, v: &mut Verdicts) {
         }
     }
     // reducer-context events in seq order, to find "the first reducer-context event after a's effect phase"
-    let rc_seqs: Vec<u64> = sh.rc.iter().map(|&i| h.evs[i].seq).collect();
+    // (on_error calls belong to the hook phase that raised them, not to what follows it)
+    let rc_seqs: Vec<u64> = sh.rc.iter().map(|&i| &h.evs[i]).filter(|e| e.k != K::MErr).map(|e| e.seq).collect();
     let pos_in_t: HashMap<u32, usize> = sh.taken.iter().enumerate().map(|(i, a)| (*a, i)).collect();
     let mut kinds_seen: HashSet<u8> = HashSet::new();
     let mut follow_reduced = 0u64;
